@@ -19,7 +19,8 @@ class LambdaTokenTranslator(AbstractTranslator):
         condition_value = literal
 
         if literal:
-            parsed_literal = re.findall(r'^\'(>=|<=|>|<|<>)((\d+)((\.)(\d+))?(e(-?\d+))?)?\'$', literal)
+            # re.ASCII: only 0-9 are digits of a number that is copied into the generated code
+            parsed_literal = re.findall(r'^\'(>=|<=|>|<|<>)((\d+)((\.)(\d+))?(e(-?\d+))?)?\'$', literal, re.ASCII)
             if parsed_literal:
                 parsed_literal = parsed_literal[0]
                 if parsed_literal[0]:
